@@ -404,6 +404,64 @@ macro_rules! multi_stream_obj {
 multi_stream_obj!(StreamMultiArcAtomic, ChannelMultiArcAtomic);
 multi_stream_obj!(StreamMultiArcFullSync, ChannelMultiArcFullSync);
 
+/// the mmap-log Multi channel with `NS` new-events listeners, each driven by the executor model
+struct StreamMultiMmapLog<const MS: usize> {
+    chan: Arc<reactive_mutiny::prelude::advanced::ChannelMultiMmapLog<u32, MS>>,
+    streams: Vec<Mutex<Option<std::pin::Pin<Box<dyn futures::Stream<Item = &'static u32> + Send>>>>>,
+    ended: Vec<std::sync::atomic::AtomicBool>,
+    consumed: Vec<AtomicUsize>,
+    sent: AtomicUsize,
+}
+impl<const MS: usize> StreamMultiMmapLog<MS> {
+    fn new(ns: usize, parked: bool) -> Self {
+        use reactive_mutiny::prelude::*;
+        static N: AtomicUsize = AtomicUsize::new(0);
+        let name = format!("rmreplay-chan-{}-{}", std::process::id(), N.fetch_add(1, SeqCst));      // the channel maps /tmp/<name>.mmap
+        let chan: Arc<reactive_mutiny::prelude::advanced::ChannelMultiMmapLog<u32, MS>> = ChannelCommon::new(name.clone());
+        let _ = std::fs::remove_file(format!("/tmp/{}.mmap", name));
+        let mut streams = vec![]; let mut ended = vec![]; let mut consumed = vec![];
+        for i in 0..ns {
+            let (st, id) = chan.create_stream_for_new_events(); assert_eq!(id as usize, i);
+            let mut st: std::pin::Pin<Box<dyn futures::Stream<Item = &'static u32> + Send>> = Box::pin(st);
+            if parked {
+                let w = task_waker(i); let mut cx = std::task::Context::from_waker(&w);
+                assert!(st.as_mut().poll_next(&mut cx).is_pending());
+            }
+            streams.push(Mutex::new(Some(st))); ended.push(std::sync::atomic::AtomicBool::new(false)); consumed.push(AtomicUsize::new(0));
+        }
+        for w in WOKEN.iter() { w.store(false, SeqCst); }
+        Self { chan, streams, ended, consumed, sent: AtomicUsize::new(0) }
+    }
+}
+impl<const MS: usize> Obj for StreamMultiMmapLog<MS> {
+    fn op(&self, name: &str, arg: u64, _prev: &[u64]) -> (u64, String) {
+        use reactive_mutiny::prelude::*;
+        match name {
+            "send" => { let ok = self.chan.send(arg as u32).is_ok(); if ok { self.sent.fetch_add(1, SeqCst); } (ok as u64, format!("ok {}", ok)) }
+            "cancel_all" => { self.chan.cancel_all_streams(); (0, "done".into()) }
+            "drive" => {
+                let i = arg as usize;
+                let mut st = self.streams[i].lock().unwrap().take().unwrap();
+                let w = task_waker(i); let mut cx = std::task::Context::from_waker(&w);
+                let mut got: Vec<u32> = vec![];
+                loop {
+                    match st.as_mut().poll_next(&mut cx) {
+                        std::task::Poll::Ready(Some(v)) => { got.push(*v); self.consumed[i].fetch_add(1, SeqCst); }
+                        std::task::Poll::Ready(None) => { self.ended[i].store(true, SeqCst); break; }
+                        std::task::Poll::Pending => { if !park(i) { break; } }
+                    }
+                }
+                std::mem::forget(st);
+                (got.len() as u64, format!("got {}", got.iter().map(|v| v.to_string()).collect::<Vec<_>>().join(",")))
+            }
+            // events accepted but not yet yielded by listener 0 (the log's own pending count is a total, not per listener)
+            "pending" => { let l = self.sent.load(SeqCst).saturating_sub(self.consumed[0].load(SeqCst)); (l as u64, format!("len {}", l)) }
+            "ended" => { let e = self.ended[arg as usize].load(SeqCst); (e as u64, format!("ended {}", e)) }
+            _ => panic!("unknown op {}", name),
+        }
+    }
+}
+
 fn make_stream(kind: &str, n: usize) -> Option<Arc<dyn Obj>> {
     // kind = Stream<Chan>{Parked|Fresh}[:MS:NS]
     let mut parts = kind.split(':');
@@ -412,6 +470,9 @@ fn make_stream(kind: &str, n: usize) -> Option<Arc<dyn Obj>> {
     let ns: usize = parts.next().map(|x| x.parse().unwrap()).unwrap_or(1);
     let parked = head.ends_with("Parked");
     let chan = head.trim_end_matches("Parked").trim_end_matches("Fresh");
+    if chan == "StreamMultiMmapLog" {
+        return Some(match ms { 1 => Arc::new(StreamMultiMmapLog::<1>::new(ns, parked)) as Arc<dyn Obj>, 2 => Arc::new(StreamMultiMmapLog::<2>::new(ns, parked)), _ => panic!("MAX_STREAMS") });
+    }
     macro_rules! inst { ($t:ident) => { match (n, ms) {
         (2, 1) => Arc::new($t::<2, 1>::new(ns, parked)) as Arc<dyn Obj>, (2, 2) => Arc::new($t::<2, 2>::new(ns, parked)),
         (4, 1) => Arc::new($t::<4, 1>::new(ns, parked)), (4, 2) => Arc::new($t::<4, 2>::new(ns, parked)),
